@@ -55,7 +55,7 @@ BASE_CONSTANTS = {
     "G_LeaderFlush": "TRUE", "G_StaleTermAppend": "TRUE",
     "G_ConfigCommittedFirst": "TRUE", "G_OwnTermBeforeConfig": "TRUE", "G_PromoteAfterRound": "TRUE",
     "G_NonVoterNoElection": "TRUE", "G_StepDownWhenDemoted": "TRUE",
-    "MaxRoundOrd": 3, "RoundFastSet": "{TRUE}", "MaxCfgReqs": 0, "EdAddPromote": "{}", "EdAddNonvoter": "{}", "EdPromote": "{}", "EdDemote": "{}", "EdRemove": "{}", "EdForceRemove": "{}",
+    "MaxRoundOrd": 3, "SegSize": 1024, "UpdBytes": 300, "MaxSnaps": 0, "FixD4": "TRUE", "FixD5": "TRUE", "RoundFastSet": "{TRUE}", "MaxCfgReqs": 0, "EdAddPromote": "{}", "EdAddNonvoter": "{}", "EdPromote": "{}", "EdDemote": "{}", "EdRemove": "{}", "EdForceRemove": "{}",
     "FixD1": "TRUE", "FixD2": "TRUE",
 }
 
@@ -143,6 +143,14 @@ def ev_to_step(ev):
         return {"k": k, "from": N(ev["from"]), "to": N(ev["n"]), "term": ev["term"]}
     if k in ("voteResp", "timeoutNowResp"):
         return {"k": k, "from": N(ev["from"]), "to": N(ev["n"]), "term": ev["term"]}
+    if k == "takeSnapshot":
+        return {"k": "task", "n": N(ev["n"]), "task": "takeSnapshot", "arg": {"threshold": ev.get("threshold", 0)}}
+    if k in ("snapGAsk", "snapGStore", "snapTaken"):
+        return {"k": k, "n": N(ev["n"])}
+    if k in ("snapReq",):
+        return {"k": "appendReq", "i": N(ev["i"]), "j": N(ev["j"])}
+    if k in ("snapResp",):
+        return {"k": "appendResp", "i": N(ev["i"]), "j": N(ev["j"])}
     if k in ("replSend", "appendResp", "replFail", "replPoll"):
         return {"k": k, "i": N(ev["i"]), "j": N(ev["j"])}
     if k == "appendReq":
@@ -268,7 +276,7 @@ def obs_check(records, workdir, timeout=900):
 # ---------------------------------------------------------------- trace validation (T)
 TRACE_CONSTS = {"None": "0", "MaxTerm": 100000, "MaxLog": 100000, "MaxCmds": 100000, "MaxCrash": 100000, "MaxInflight": 100000,
                 "MaxElections": 100000, "Orphans": "TRUE", "Reduce": "FALSE", "KeepHist": "FALSE",
-                "MaxRoundOrd": 100000, "MaxCfgReqs": 100000, "RoundFastSet": "{TRUE, FALSE}"}
+                "MaxRoundOrd": 100000, "MaxCfgReqs": 100000, "MaxSnaps": 100000, "RoundFastSet": "{TRUE, FALSE}"}
 
 
 def trace_validate(records, workdir, sched0, timeout=900, max_drifts=4):
